@@ -114,6 +114,11 @@ def check_tree(ctx, out, spec, tag, tree=None, typed=False):
                 got = dict(index=idx, first=n.first_sibling(), last=n.last_sibling(), prev=n.prev_sibling(), next=n.next_sibling(),
                            is_first=n.is_first_sibling(), is_last=n.is_last_sibling(), same_kind=all(x.kind == n.kind for x in sibs),
                            in_parent=[x for x in (n.parent or tree.system_root).children if x.kind == n.kind] == sibs)
+                # the parent asked for the node's kind, named by an equal string that is a different object (a kind read from a file)
+                par_, fk = (n.parent or tree.system_root), "".join(list(n.kind))
+                ck_ = par_.get_children(fk)
+                got.update(children_of_kind=len(ck_) == len(sibs) and all(x is y for x, y in zip(ck_, sibs)), first_of_kind=par_.first_child(fk),
+                           last_of_kind=par_.last_child(fk), has_of_kind=par_.has_children(fk))
             except Exception as e:  # noqa
                 out.fail(dict(kind="typed-consistency", spec=spec, node=nid, typed=True), f"default sibling queries of node {nid} raised {e!r}")
                 continue
@@ -122,9 +127,10 @@ def check_tree(ctx, out, spec, tag, tree=None, typed=False):
                 continue
             p = pos[0]
             want = dict(index=p, first=sibs[0], last=sibs[-1], prev=sibs[p - 1] if p > 0 else None, next=sibs[p + 1] if p + 1 < len(sibs) else None,
-                        is_first=p == 0, is_last=p == len(sibs) - 1, same_kind=True, in_parent=True)
+                        is_first=p == 0, is_last=p == len(sibs) - 1, same_kind=True, in_parent=True,
+                        children_of_kind=True, first_of_kind=sibs[0], last_of_kind=sibs[-1], has_of_kind=True)
             for k in want:
-                if (got[k] is not want[k]) if k in ("first", "last", "prev", "next") else (got[k] != want[k]):
+                if (got[k] is not want[k]) if k in ("first", "last", "prev", "next", "first_of_kind", "last_of_kind") else (got[k] != want[k]):
                     out.fail(dict(kind="typed-consistency", spec=spec, node=nid, typed=True, accessor=k),
                              f"typed node {nid}: default {k} = {got[k]!r} is inconsistent with its position {p} in get_siblings(add_self=True) (expected {want[k]!r})")
     for a, b, model, sp in resp["pairs"]:
@@ -219,14 +225,14 @@ def run(ctx):
         for shape in gen.forests(n):
             for _ in range(3 if n >= 3 else 1):
                 cnt = itertools.count()
-                spec = gen.label_forest(shape, ({"a": next(cnt) % 12, "k": ctx.rng.choice("abc"), "did": 8000 + next(cnt)} for _ in range(n)))
+                spec = gen.label_forest(shape, ({"a": next(cnt) % 12, "k": ctx.rng.choice("abcd"), "did": 8000 + next(cnt)} for _ in range(n)))
                 check_tree(ctx, out, spec, "typed", typed=True)
                 out.dist["typed_tree"] += 1
     for _ in range(150 if ctx.thorough else 30):
         n = ctx.rng.randrange(6, 16)
         shape = gen.random_shape(ctx.rng, n)
         cnt = itertools.count()
-        spec = gen.label_forest(shape, ({"a": ctx.rng.choice([0, 1, 2, 18, 19, 24, 25, 12]), "k": ctx.rng.choice("abc"), "did": 9000 + next(cnt)} for _ in range(n)))
+        spec = gen.label_forest(shape, ({"a": ctx.rng.choice([0, 1, 2, 18, 19, 24, 25, 12]), "k": ctx.rng.choice("abcd"), "did": 9000 + next(cnt)} for _ in range(n)))
         check_tree(ctx, out, spec, "typed-rnd", typed=True)
         out.dist["typed_tree"] += 1
     # trees REACHED through mutation histories (add / shortcuts / copies / moves / removals with keep_children / sort / set_data):
